@@ -693,6 +693,7 @@ def run(chk):
     shapes.every_handler_checks_http_status(chk, P, "C12.R5:every-handler-checks-http-status")
     shapes.end_stream_iff_nothing_left(chk, P, "C12.R10:end-of-request-body")
     shapes.gzip_consumes_payload(chk, P, "C12.R10:gzip-consumes-payload")
+    shapes.url_join_one_separator(chk, P, "C12.R9:url-join")
     _call = lambda nm: (lambda o, b: o[0] == "call" and o[1].callee.get("name") == nm)
     shapes.returns_binop(chk, P, "C12.R10:content-length", "the declared content length of a request is its framing prefix plus its payload",
                          "emit_otlp::client::http::HttpContent::content_len", "Add", _call("content_frame_len"), _call("content_payload_len"),
